@@ -131,3 +131,32 @@ Definition imports_aliasedb (f : tree) : bool :=
   end.
 
 Definition bad_alias (cs : list dcase) : list nat := bad_idx (fun c => imports_aliasedb (fc_tree (dc_f c))) 0 cs.
+
+(* ---- the import-managed pipeline: decorate with a resolver, restore with a resolver -------------- *)
+Record mcase := mkMC {
+  mc_f : fcase;
+  mc_paths : list (N * (Z * N));                (* ast node id -> (length, uid) of the path the decorator assigned *)
+  mc_pkg : list (N * Z);                        (* path uid -> length of the package name the restorer chose *)
+  mc_expect : tree;                             (* the real dst tree *)
+  mc_base : Z; mc_lines : list Z; mc_size : Z;
+  mc_comments : list (N * list (Z * Z * N));
+  mc_pos : list (list (path * Z))
+}.
+
+Definition run_mcase ftbl stmts decls du dtbl (c : mcase) : tree * bool :=
+  let '(frs, err) := run_fcase ftbl stmts decls (mc_f c) in
+  let att := link (map snd frs) in
+  (decorateM du dtbl att (mc_paths c) (fc_tree (mc_f c)), err || l_panic att).
+
+Definition check_mcase ftbl stmts decls du dtbl rtbl (c : mcase) : bool :=
+  let '(d, bad) := run_mcase ftbl stmts decls du dtbl c in
+  negb bad && tree_sim d (mc_expect c) &&
+  check_rcase rtbl (mkRC d (mc_base c) true (mc_pkg c) false (mc_lines c) (mc_size c) (mc_comments c) (mc_pos c)).
+
+Definition bad_mcases ftbl stmts decls du dtbl rtbl (cs : list mcase) : list nat := bad_idx (check_mcase ftbl stmts decls du dtbl rtbl) 0 cs.
+
+(* which half disagrees, for diagnosis *)
+Definition mcase_halves ftbl stmts decls du dtbl rtbl (c : mcase) : bool * bool * bool :=
+  let '(d, bad) := run_mcase ftbl stmts decls du dtbl c in
+  (negb bad, tree_sim d (mc_expect c),
+   check_rcase rtbl (mkRC d (mc_base c) true (mc_pkg c) false (mc_lines c) (mc_size c) (mc_comments c) (mc_pos c))).
